@@ -63,11 +63,13 @@ var jobTable = map[string]jobSet{
 		quick: []Job{
 			{Scenario: "close/N=2/k=2/closers=2", Budgets: bs(B(2, 0)), Split: 1},
 			{Scenario: "closestall/N=1/closers=2", Budgets: bs(B(2, 0)), Split: 1},
+			{Scenario: "closefull/N=1/closers=1", Budgets: bs(B(2, 0)), Split: 1},
 		},
 		thorough: []Job{
 			{Scenario: "close/N=2/k=2/closers=2", Budgets: bs(B(2, 0)), Split: 2},
 			{Scenario: "closestall/N=1/closers=2", Budgets: bs(B(2, 0)), Split: 2},
 			{Scenario: "closestall/N=2", Budgets: bs(B(2, 0)), Split: 2},
+			{Scenario: "closefull/N=2/closers=2", Budgets: bs(B(2, 0)), Split: 2},
 		},
 		quickS: 240, thoroughS: 1500,
 	},
@@ -211,6 +213,7 @@ func init() {
 			{Scenario: "kadead/N=1/ka=2s,1s", Budgets: bs(B(0, 1)), Split: 1},
 			{Scenario: "kadead/N=1/ka=1s,3s/kaside=s/k=1", Budgets: bs(B(0, 1)), Split: 1},
 			{Scenario: "kadead/N=2/ka=1s,3s/kaside=c/k=4", Budgets: bs(B(0, 1)), Split: 1},
+			{Scenario: "kadead/N=1/ka=1s,8s/kaside=s/k=1", Budgets: bs(B(0, 1)), Split: 1},
 			{Scenario: "kadead/N=1/ka=2s,1s/k=2/until=5s", Budgets: bs(B(1, 1)), Filter: "tickeronly", Split: 1},
 		},
 		thorough: []Job{
